@@ -641,3 +641,135 @@ Proof.
   unfold pview_match, relax_immutable, total. cbn.
   rewrite !andb_true_iff, !refs_eqb_spec, !listN_eqb_spec. intuition congruence.
 Qed.
+
+(** * Reverting the current operation *)
+Lemma lookup_insert_sorted {V} k (v : V) l k' :
+  lookup_ref (insert_sorted k v l) k' = if N.eqb k k' then Some v else lookup_ref l k'.
+Proof.
+  induction l as [|[k1 v1] t IH]; cbn; [reflexivity|].
+  destruct (N.leb k k1) eqn:E; cbn; [reflexivity|].
+  rewrite IH. destruct (N.eqb k1 k') eqn:E1; [|reflexivity].
+  destruct (N.eqb k k') eqn:E2; [|reflexivity].
+  apply N.eqb_eq in E1, E2. subst. rewrite N.leb_refl in E. discriminate.
+Qed.
+
+Lemma lookup_fold_insert {V} (f : N -> option V) names k :
+  lookup_ref (fold_right (fun name m => match f name with Some c => insert_sorted name c m | None => m end)
+                         [] names) k
+  = if existsb (N.eqb k) names then f k else None.
+Proof.
+  induction names as [|n rest IH]; cbn [fold_right existsb]; [reflexivity|].
+  destruct (f n) as [c|] eqn:Ef.
+  - rewrite lookup_insert_sorted, IH. rewrite (N.eqb_sym k n).
+    destruct (N.eqb n k) eqn:E; cbn [orb]; [|reflexivity].
+    apply N.eqb_eq in E. subst. now rewrite Ef.
+  - rewrite IH. destruct (N.eqb k n) eqn:E; cbn [orb]; [|reflexivity].
+    apply N.eqb_eq in E. subst. rewrite Ef. now destruct (existsb (N.eqb n) rest).
+Qed.
+
+Lemma union_keys_cons x a b :
+  b <> [] ->
+  union_keys (x :: a) b = if existsb (N.eqb x) b then union_keys a b else x :: union_keys a b.
+Proof. destruct b; [congruence|reflexivity]. Qed.
+
+Lemma union_keys_nil_r a : union_keys a [] = a.
+Proof. destruct a; reflexivity. Qed.
+
+Lemma in_union_keys a b k :
+  existsb (N.eqb k) (union_keys a b) = existsb (N.eqb k) a || existsb (N.eqb k) b.
+Proof.
+  destruct b as [|y b'].
+  - rewrite union_keys_nil_r. cbn. now rewrite orb_false_r.
+  - remember (y :: b') as bb eqn:Eb. assert (Hne : bb <> []) by (subst; discriminate).
+    clear Eb. induction a as [|x a IH]; [reflexivity|].
+    rewrite union_keys_cons by assumption.
+    destruct (existsb (N.eqb x) bb) eqn:Ex.
+    + rewrite IH. cbn. destruct (N.eqb k x) eqn:E; [|reflexivity].
+      apply N.eqb_eq in E. subst. rewrite Ex. now rewrite orb_true_r.
+    + cbn. rewrite IH. now rewrite orb_assoc.
+Qed.
+
+Lemma lookup_ref_notin {V} (l : list (N * V)) k :
+  existsb (N.eqb k) (map fst l) = false -> lookup_ref l k = None.
+Proof.
+  induction l as [|[k1 v1] t IH]; cbn; [reflexivity|].
+  intros H. apply orb_false_iff in H. destruct H as [H1 H2].
+  rewrite N.eqb_sym, H1. auto.
+Qed.
+
+Lemma merge_wc1_self_base (b o : option N) : merge_wc1 b b o = o.
+Proof.
+  unfold merge_wc1, trivial_merge. rewrite andb_true_r.
+  assert (R : forall x : option N, option_eqb N.eqb x x = true).
+  { intros [x|]; cbn; [apply N.eqb_refl|reflexivity]. }
+  destruct (option_eqb N.eqb b o) eqn:E.
+  - destruct b, o; cbn in E; try discriminate; [apply N.eqb_eq in E; now subst|reflexivity].
+  - now rewrite R.
+Qed.
+
+(** Reverting with [self = base]: every workspace gets the parent operation's pointer. *)
+Lemma merge_wc_self_base b o name :
+  lookup_ref (merge_wc b b o) name = lookup_ref o name.
+Proof.
+  unfold merge_wc. rewrite lookup_fold_insert.
+  assert (Hr : (if option_eqb N.eqb (lookup_ref b name) (lookup_ref o name)
+                then lookup_ref b name
+                else merge_wc1 (lookup_ref b name) (lookup_ref b name) (lookup_ref o name))
+               = lookup_ref o name).
+  { destruct (option_eqb N.eqb (lookup_ref b name) (lookup_ref o name)) eqn:E.
+    - destruct (lookup_ref b name), (lookup_ref o name); cbn in E; try discriminate;
+        [apply N.eqb_eq in E; now subst|reflexivity].
+    - apply merge_wc1_self_base. }
+  rewrite Hr. rewrite !in_union_keys.
+  destruct (existsb (N.eqb name) (map fst o)) eqn:Eo.
+  - now rewrite !orb_true_r.
+  - rewrite (lookup_ref_notin o name Eo). now destruct (_ || _).
+Qed.
+
+Lemma merge_refs_self_base b o :
+  exists m, merge_refs b b o = Some m
+            /\ forall name, target_of (lookup_ref m name) = target_of (lookup_ref o name).
+Proof.
+  set (f := fun name : N => match target_of (lookup_ref o name) with [] => None | t => Some t end).
+  set (names := union_keys (map fst b) (union_keys (map fst b) (map fst o))).
+  exists (fold_right (fun name m => match f name with Some c => insert_sorted name c m | None => m end)
+                     [] names).
+  split.
+  - unfold merge_refs. fold names. induction names as [|n rest IH]; [reflexivity|].
+    cbn [fold_right]. rewrite IH. unfold merge3. rewrite listN_eqb_refl. unfold f.
+    destruct (target_of (lookup_ref o n)); reflexivity.
+  - intros name. rewrite lookup_fold_insert. unfold names. rewrite !in_union_keys.
+    destruct (existsb (N.eqb name) (map fst o)) eqn:Eo.
+    + rewrite !orb_true_r. unfold f. destruct (target_of (lookup_ref o name)); reflexivity.
+    + rewrite (lookup_ref_notin o name Eo).
+      destruct (_ || _); [|reflexivity]. unfold f. rewrite (lookup_ref_notin o name Eo). reflexivity.
+Qed.
+
+Lemma veq5_refl v : veq5 v v = true.
+Proof. apply veq5_spec, same5_refl. Qed.
+
+(** `jj op revert` of the CURRENT operation: the model determines every portion, and each
+    equals the parent operation's (maps compared by lookup). *)
+Lemma revert_current l0 h p pop :
+  let log := (l0 ++ [h])%list in
+  let hid := N.of_nat (length l0) in
+  o_parents h = [p] -> get log p = Some pop ->
+  exists bm tg w,
+    cmd_revert log hid h hid true true
+    = RNew [hid] (REVERT_OP_DESC_PREFIX ++ idstr hid)
+           (mk_pview (Some (v_heads (o_view pop))) (Some bm) (Some tg) (Some w)
+                     (Some (v_remotes (o_view pop)))
+                     (Some (v_git_refs (o_view h))) (Some (v_git_heads (o_view h)))) false
+    /\ (forall name, target_of (lookup_ref bm name) = target_of (lookup_ref (v_bookmarks (o_view pop)) name))
+    /\ (forall name, target_of (lookup_ref tg name) = target_of (lookup_ref (v_tags (o_view pop)) name))
+    /\ (forall name, lookup_ref w name = lookup_ref (v_wc (o_view pop)) name).
+Proof.
+  intros log hid Hp Hg.
+  destruct (merge_refs_self_base (v_bookmarks (o_view h)) (v_bookmarks (o_view pop))) as (bm & Hbm & Hbm').
+  destruct (merge_refs_self_base (v_tags (o_view h)) (v_tags (o_view pop))) as (tg & Htg & Htg').
+  exists bm, tg, (merge_wc (v_wc (o_view h)) (v_wc (o_view h)) (v_wc (o_view pop))).
+  split; [|split; [assumption|split; [assumption|intros; apply merge_wc_self_base]]].
+  unfold cmd_revert. unfold log, hid. rewrite get_last, Hp. fold log. rewrite Hg.
+  rewrite veq5_refl, orb_true_r. cbn [andb].
+  rewrite Hbm, Htg. unfold merge3. rewrite !listN_eqb_refl. reflexivity.
+Qed.
